@@ -4,7 +4,7 @@
    (known findings): transition edges leave end groups; a descriptor carrying a list doubles each
    stochastic edge by a termination edge into a repeat unit. *)
 From Coq Require Import List ZArith QArith Bool Arith String.
-From GBS Require Import Model.PyStr Model.Num Model.Bond Model.Select Model.Gen Model.RGraph Model.AGraph Proofs.AGraphP.
+From GBS Require Import Model.PyStr Model.Num Model.Bond Model.Select Model.Gen Model.RGraph Model.AGraph Proofs.AGraphP Src.SrcAGraph Proofs.AGraphSrcP.
 Import ListNotations.
 
 Theorem C17_nodes : forall es, fst (atom_graph es) = fold_right Z.add 0%Z (map (fun e => fold_right Z.add 0%Z (map natoms_tok (toks_of e))) es).
@@ -58,6 +58,13 @@ Theorem C17_termination_into_repeat_unit_refuted :
   exists x, In x (snd (atom_graph list_example)) /\ a_kind x = WTerm /\ a_u x = 1%Z /\ a_v x = 0%Z /\ a_w x = 3%Q.
 Proof. exact termination_into_repeat_unit_refuted. Qed.
 Print Assumptions C17_termination_into_repeat_unit_refuted.
+
+(* tie T: the stochastic / termination edges of an object written over the decisions REGENERATED from _add_stochastic_bonds (Src/SrcAGraph.v;
+   the statement skeletons of all functions / methods of stochastic_atom_graph.py and the remaining decisions are checked against
+   harness/skeletons/stochastic_atom_graph*.txt; is_compatible regenerated from bond.py) are the model's *)
+Theorem C17_object_edges_are_source : forall e offs, stoch_edges_src e offs = stoch_edges e offs.
+Proof. exact stoch_edges_is_source. Qed.
+Print Assumptions C17_object_edges_are_source.
 
 Example C17_example : fst (atom_graph leak_example) = 9%Z /\ List.length (snd (atom_graph leak_example)) = 24%nat.
 Proof. vm_compute. split; reflexivity. Qed.
